@@ -406,6 +406,33 @@ def evaluate_case(case, louts, ctx, scope, pre):
         impl_order = common.call_impl(lambda: list(cube._all_dimensions.dimension_order))
         _cmp(findings, "model", "%s.dimension_order" % pre, impl_order, exp_order, "dimension_order")
 
+    if scope == "c02":
+        # Cube / CubeSet.valid_counts_summary_range: (min, max) of the unweighted valid counts summed over the
+        # non-array dimensions; None without the measure
+        from cr.cube.cube import CubeSet
+        mrange = f2(api["cube"]["valid_counts_summary_range"])
+        impl = impl_get(lambda: cube.valid_counts_summary_range)
+        _cmp(findings, "model", "%s.seam.cube.valid_counts_summary_range" % pre, impl, mrange, "Cube")
+        cs = CubeSet([response(case)], [{}], None, 0)
+        impl_set = impl_get(lambda: cs.valid_counts_summary_range)
+        _cmp(findings, "model", "%s.seam.cubeset.valid_counts_summary_range" % pre, impl_set, mrange, "CubeSet")
+        if usrc != "u":
+            if impl is not None:
+                findings.append({"kind": "spec", "locus": "%s.cube.valid_counts_summary_range.absent" % pre,
+                                 "detail": "no valid_count_unweighted measure but reported %s" % _short(impl)})
+        elif "mr" not in kinds:
+            srange = f2(spec["summary_range"])
+            _cmp(findings, "spec", "%s.cube.valid_counts_summary_range" % pre, impl, srange, "Cube (respondent level)")
+            _cmp(findings, "spec", "%s.cubeset.valid_counts_summary_range" % pre, impl_set, srange,
+                 "CubeSet (respondent level)")
+            ctx.count("summary_range.respondent_level_checked")
+        else:
+            # multiple-response dimension: HEAD (pinned by tests) does not sum the selection axis and shifts the
+            # axes of later categorical dimensions; compared with the model only, divergence from the
+            # respondent-level reading is counted, not reported
+            ok, _ = common.deep_close(impl, f2(spec["summary_range"]))
+            ctx.count("summary_range.mr_%s_respondent_reading" % ("agrees_with" if ok else "differs_from"))
+
     parts = common.call_impl(lambda: len(cube.partitions))
     if parts != api["npartitions"] or parts != spec["npartitions"]:
         return findings + [{"kind": "spec", "locus": "%s.npartitions" % pre,
